@@ -4,17 +4,21 @@ ibldsp.voltage.decompress_destripe_cbin (imported through PYTHONPATH, honouring 
 on short synthetic recordings, with the file reads / writes of every worker observed from
 outside (voltage.open and spikeglx.Reader are wrapped for the duration of a run; /repo is
 not edited)."""
+import atexit
 import builtins
 import contextlib
 import io
 import json
+import multiprocessing
 import os
 import re
 import shutil
+import signal
 import threading
 import time
 import traceback
 import warnings
+import zlib
 from pathlib import Path
 
 import numpy as np
@@ -27,8 +31,11 @@ HEADER = "From Coq Require Import ZArith List.\nImport ListNotations.\nFrom IBL.
 T = 1024          # SAMPLES_TAPER, a constant of the source
 FS = 30000.0
 TRUSTED = [
-    "Coq 8.16.1 kernel + vm_compute (no native_compute); C06 theorems 1-11: Closed under the global context; "
-    "C06_sync_cast_exact (Flocq): the four standard-library axioms of the classical reals / funext",
+    "Coq 8.16.1 kernel + vm_compute (no native_compute); C06 theorems 1-11 and 14: Closed under the global context; "
+    "C06_sync_cast_exact and C06_float_quotients_exact (Flocq; the latter imports coq/C17/FloatCeil.v): the four "
+    "standard-library axioms of the classical reals / funext",
+    "every call into the implementation runs in a forked child process with a timeout (hang / crash of the "
+    "implementation = failing input of that run); joblib 'threading' backend for the instrumented runs",
     "coq/C06/SyncSweep.v (exhaustive vm_compute over the 65536 int16 values) is kernel-checked by coqc in the build; "
     "the independent checker coqchk (thorough tier) takes that one module as given (-admit)",
     "hand-written model coq/C06/Model.v of the index/offset bookkeeping of ibldsp.voltage.decompress_destripe_cbin "
@@ -36,7 +43,8 @@ TRUSTED = [
     "cell contents are abstract in the theorems: a cell holds (batch, local row, byte in row); that equal descriptors "
     "mean equal bytes (the per-batch DSP is a deterministic function of the batch's read range) is checked by "
     "byte comparison across worker counts and against a harness-side batch-wise pipeline, not proved",
-    "int(np.ceil(a / b)) and int(a / b) on float64 quotients equal the exact integer ceiling / floor (operands < 2^52)",
+    "CPython int / int = correctly rounded binary64 quotient of the exact integers (the IEEE operation the theorem is "
+    "about); replayed on random operands up to 2^53 in every run",
     "POSIX file semantics: a seek past the end followed by a write leaves a hole that later writes fill; "
     "concurrent writers to disjoint or identically-filled byte ranges do not disturb each other",
     "harness/stubs/pyfftw.py stands in for pyfftw (NumPy rfft/irfft, float32/complex64)",
@@ -444,15 +452,43 @@ def call_impl(binf, outf, scn, nproc, backend, append=False, nbatch=None, ns2add
         kw["dtype"] = getattr(np, scn["dtype"])
     if scn.get("compute_rms") is False:
         kw["compute_rms"] = False
+    w0 = None if kw["wrot"] is None else np.array(kw["wrot"], copy=True)
     with warnings.catch_warnings():
         warnings.simplefilter("ignore")
         with joblib.parallel_config(backend=backend):
-            voltage.decompress_destripe_cbin(binf, outf, **kw)
+            ret = voltage.decompress_destripe_cbin(binf, outf, **kw)
+    notes = []
+    if ret is not None:
+        notes.append("returned %s instead of None" % type(ret).__name__)
+    if w0 is not None and not np.array_equal(w0, np.asarray(kw["wrot"])):
+        notes.append("the wrot argument was modified in place")
+    return notes
 
 
-def observe(binf, outdir, scn, nproc, backend, append=False, nbatch=None, ns2add=None):
+def fingerprint(binf):
+    """crc of every file of the source recording (bin/cbin, ch, meta)."""
+    out = {}
+    for f in sorted(Path(binf).parent.iterdir()):
+        if f.is_file():
+            out[f.name] = (f.stat().st_size, zlib.crc32(f.read_bytes()))
+    return out
+
+
+def observe(*a, **kw):
+    """observe_inner, never raising: whatever goes wrong while running the implementation or while
+    collecting what it left behind is an error of that run (reported with its input)."""
+    try:
+        return observe_inner(*a, **kw)
+    except BaseException as e:          # noqa: the implementation may raise anything, SystemExit included
+        return {"P": a[3] if len(a) > 3 else kw.get("nproc"), "backend": a[4] if len(a) > 4 else kw.get("backend"),
+                "append": kw.get("append", False), "pre": {"out": 0, "rms": 0, "time": 0},
+                "error": "%s: %s" % (type(e).__name__, e), "trace": traceback.format_exc()[-1500:]}
+
+
+def observe_inner(binf, outdir, scn, nproc, backend, append=False, nbatch=None, ns2add=None):
     """One real run.  Returns dict with bytes / QC / (threading backend only) per-worker events."""
     outdir.mkdir(parents=True, exist_ok=True)
+    fp0 = fingerprint(binf)
     outf = outdir / "out.bin"
     watched = {outf: "out", outdir / "ap_rms.bin": "rms", outdir / "ap_time.bin": "time",
                outdir / "_iblqc_ephysSaturation.samples.npy": "sat"}
@@ -462,15 +498,17 @@ def observe(binf, outdir, scn, nproc, backend, append=False, nbatch=None, ns2add
     try:
         if backend == "threading":
             with Tap(watched) as tap:
-                call_impl(binf, outf, scn, nproc, backend, append, nbatch, ns2add)
+                res["arg_notes"] = call_impl(binf, outf, scn, nproc, backend, append, nbatch, ns2add)
             res["workers"], res["n_idle"] = canon_sessions(tap, scn["ncv"])
         else:
-            call_impl(binf, outf, scn, nproc, backend, append, nbatch, ns2add)
-    except Exception as e:
+            res["arg_notes"] = call_impl(binf, outf, scn, nproc, backend, append, nbatch, ns2add)
+    except BaseException as e:          # noqa
         res["error"] = "%s: %s" % (type(e).__name__, e)
         res["trace"] = traceback.format_exc()[-1500:]
         return res
     res["wall"] = time.time() - t0
+    fp1 = fingerprint(binf)
+    res["src_changed"] = sorted(k for k in set(fp0) | set(fp1) if fp0.get(k) != fp1.get(k))
     res["raw"] = np.fromfile(outf, dtype=np.uint8)
     res["size"] = {k: (Path(p).stat().st_size if Path(p).exists() else -1) for p, k in watched.items() if k != "sat"}
     if scn.get("compute_rms") is False:
@@ -483,6 +521,127 @@ def observe(binf, outdir, scn, nproc, backend, append=False, nbatch=None, ns2add
     res["rms"] = np.load(outdir / "_iblqc_ephysTimeRmsAP.rms.npy")
     res["times"] = np.load(outdir / "_iblqc_ephysTimeRmsAP.timestamps.npy")
     return res
+
+
+# --------------------------------------------------------------------------
+# every call into the implementation happens in a forked child, bounded by a timeout
+# --------------------------------------------------------------------------
+class RunFailure(Exception):
+    pass
+
+
+def _serve(conn):
+    os.setsid()                       # own process group: loky workers are killed with us
+    funcs = {"observe": observe, "reference": reference, "make_recording": make_recording,
+             "sync_factors": sync_factors}
+    while True:
+        try:
+            msg = conn.recv()
+        except (EOFError, OSError):
+            break
+        if msg is None:
+            break
+        name, a, kw = msg
+        try:
+            res = ("ok", funcs[name](*a, **kw))
+        except BaseException as e:    # noqa
+            res = ("exc", "%s: %s" % (type(e).__name__, e), traceback.format_exc()[-1500:])
+        try:
+            conn.send(res)
+        except BaseException as e:    # noqa: unpicklable result
+            conn.send(("exc", "result could not be returned: %r" % (e,), ""))
+    os._exit(0)
+
+
+class Runner:
+    """Runs observe / reference / make_recording in a forked child process and waits at most
+    `timeout` seconds for the answer.  A hang or a crash of the child (segfault, os._exit) kills its
+    whole process group, is reported as a failure of that run and a new child is started; after
+    three hangs no further run is attempted (each reports the same failure at once)."""
+
+    def __init__(self):
+        self.proc = self.conn = None
+        self.hangs = 0
+        self.scale = 1.0
+
+    def start(self):
+        mp = multiprocessing.get_context("fork")
+        self.conn, child = mp.Pipe()
+        self.proc = mp.Process(target=_serve, args=(child,))
+        self.proc.start()
+        child.close()
+
+    def stop(self):
+        if self.proc is not None:
+            try:
+                os.killpg(self.proc.pid, signal.SIGKILL)
+            except (ProcessLookupError, PermissionError):
+                pass
+            try:
+                self.proc.kill()
+            except Exception:
+                pass
+            self.proc.join(5)
+            try:
+                self.conn.close()
+            except Exception:
+                pass
+        self.proc = self.conn = None
+
+    def call(self, name, a=(), kw=None, timeout=120.0):
+        if self.hangs >= 3:
+            raise RunFailure("Timeout: not run, the implementation already hung %d times" % self.hangs)
+        if self.proc is None or not self.proc.is_alive():
+            self.stop()
+            self.start()
+        tmo = max(20.0, timeout * self.scale)
+        try:
+            self.conn.send((name, a, kw or {}))
+            if not self.conn.poll(tmo):
+                self.hangs += 1
+                self.scale = 0.34
+                self.stop()
+                raise RunFailure("Timeout: no result within %.0f s (hang / dead-lock); process group killed" % tmo)
+            res = self.conn.recv()
+        except (EOFError, OSError, BrokenPipeError) as e:
+            code = self.proc.exitcode if self.proc is not None else None
+            self.stop()
+            raise RunFailure("Crash: the process running the implementation died (exit code %s, %s)"
+                             % (code, type(e).__name__))
+        if res[0] == "exc":
+            raise RunFailure(res[1])
+        return res[1]
+
+
+RUN = Runner()
+atexit.register(RUN.stop)
+
+
+def run_timeout(scn, thorough=False):
+    base = {8: 60.0, 64: 150.0}.get(scn["ncv"], 400.0)
+    return base * (2.0 if thorough else 1.0) * (1.0 + scn["ns"] / 40000.0)
+
+
+def g_call(ctx, name, scn, *a, **kw):
+    """make_recording / reference / sync_factors in the child; raises RunFailure."""
+    return RUN.call(name, a, kw, run_timeout(scn, ctx.thorough()))
+
+
+def sync_factors(binf):
+    import spikeglx
+    sr = spikeglx.Reader(binf)
+    try:
+        return np.array(sr.sample2volts)
+    finally:
+        sr.close()
+
+
+def g_observe(ctx, binf, outdir, scn, nproc, backend, **kw):
+    try:
+        return RUN.call("observe", (binf, outdir, scn, nproc, backend), kw, run_timeout(scn, ctx.thorough()))
+    except RunFailure as e:
+        return {"P": nproc, "backend": backend, "append": kw.get("append", False),
+                "pre": {"out": 0, "rms": 0, "time": 0}, "error": str(e)}
 
 
 # --------------------------------------------------------------------------
@@ -793,6 +952,10 @@ def check_run(ctx, scn, obs, data, ref, ref_prev, tags_base, cases, stats, nbatc
     if "error" in obs:
         fail("exception: decompress_destripe_cbin raised %s" % obs["error"])
         return None
+    if obs.get("src_changed"):
+        fail("input: the source recording was modified by the run (%s)" % ", ".join(obs["src_changed"]))
+    for note in obs.get("arg_notes") or []:
+        fail("input: " + note)
     offset = obs["pre"]["out"] if obs["append"] else 0
     raw = obs["raw"]
     ns2add = scn["ns2add"]
@@ -828,8 +991,8 @@ def check_run(ctx, scn, obs, data, ref, ref_prev, tags_base, cases, stats, nbatc
     # -- QC sizes and contents
     sat, rms, times = obs["sat"], obs["rms"], obs["times"]
     nprev = 0 if not obs["append"] else obs["pre"]["time"] // 4
-    if sat.shape != (ns,):
-        fail("qc: saturation vector has shape %s, expected (%d,)" % (sat.shape, ns))
+    if sat.shape != (ns,) or sat.dtype != np.bool_:
+        fail("qc: saturation vector has shape %s dtype %s, expected (%d,) bool" % (sat.shape, sat.dtype, ns))
     else:
         if obs["backend"] == "threading":
             # exact: the file holds, at every sample, what the LAST observed assignment covering it wrote,
@@ -865,8 +1028,10 @@ def check_run(ctx, scn, obs, data, ref, ref_prev, tags_base, cases, stats, nbatc
             cover[r["first"]:r["last"]] |= (sat[r["first"]:r["last"]] == r["sat"])
         if not cover.all():
             fail("qc: saturation flags at %d samples are not those of any batch covering them" % int((~cover).sum()))
-    if rms.shape != (nprev + len(ref), ncv) or times.shape != (nprev + len(ref),):
-        fail("qc: rms %s / timestamps %s, expected %d batches" % (rms.shape, times.shape, nprev + len(ref)))
+    if rms.shape != (nprev + len(ref), ncv) or times.shape != (nprev + len(ref),) \
+            or rms.dtype.kind != "f" or times.dtype.kind != "f":
+        fail("qc: rms %s %s / timestamps %s %s, expected %d batches of floats"
+             % (rms.shape, rms.dtype, times.shape, times.dtype, nprev + len(ref)))
     else:
         rr = np.array([r["rms"] for r in ref])
         tt = np.array([r["t"] for r in ref], dtype=np.float32)
@@ -897,17 +1062,31 @@ def check_run(ctx, scn, obs, data, ref, ref_prev, tags_base, cases, stats, nbatc
     return rows
 
 
+def safe_check_run(ctx, scn, obs, *a, **kw):
+    """check_run; outputs so malformed that they cannot even be examined are a failure of that run."""
+    ncases = len(a[4]) if len(a) > 4 else 0
+    try:
+        return check_run(ctx, scn, obs, *a, **kw)
+    except Exception as e:
+        if len(a) > 4:
+            del a[4][ncases:]
+        ctx.fail("malformed: what the run left behind could not be examined (%s: %s)" % (type(e).__name__, str(e)[:200]),
+                 dict(scn_public(scn), P=obs.get("P"), backend=obs.get("backend"), append_run=obs.get("append")),
+                 {"clause": "malformed", "ncv": scn["ncv"]})
+        return None
+
+
 def run_scenario(ctx, scn, cases, stats, samples):
     tmp = common.tmpdir("C06_run_")
     t_s = time.time()
     try:
-        binf, data, sat = make_recording(tmp / "src", scn)
         tags_base = {"ncv": scn["ncv"], "reject": scn["reject"], "k_filter": scn["k_filter"]}
         try:
-            ref = reference(binf, scn)
-        except Exception as e:
-            ctx.fail("exception: building blocks raised %s: %s" % (type(e).__name__, e), scn_public(scn),
-                     dict(tags_base, clause="exception"))
+            binf, data, sat = g_call(ctx, "make_recording", scn, tmp / "src", scn)
+            ref = g_call(ctx, "reference", scn, binf, scn)
+        except RunFailure as e:
+            ctx.fail("exception: building blocks (reader / compression / batch-wise reference) failed: %s" % e,
+                     scn_public(scn), dict(tags_base, clause="exception"))
             return
         stats["sat_raw_vs_tapered_samples"] = stats.get("sat_raw_vs_tapered_samples", 0) + \
             sum(int(np.count_nonzero(r["sat"] != r["sat_tap"])) for r in ref)
@@ -915,11 +1094,11 @@ def run_scenario(ctx, scn, cases, stats, samples):
         first_raw = None
         runs = [(p, "threading") for p in scn["ps"]] + [(p, "loky") for p in scn["loky"]]
         for (p, be) in runs:
-            obs = observe(binf, tmp / ("o_%s_%d" % (be, p)), scn, p, be)
+            obs = g_observe(ctx, binf, tmp / ("o_%s_%d" % (be, p)), scn, p, be)
             stats["runs"] += 1
             stats["runs_" + be] += 1
             stats["P_hist"][p] = stats["P_hist"].get(p, 0) + 1
-            rows = check_run(ctx, scn, obs, data, ref, None, tags_base, cases, stats, scn["nbatch"])
+            rows = safe_check_run(ctx, scn, obs, data, ref, None, tags_base, cases, stats, scn["nbatch"])
             if rows is None:
                 continue
             if be == "threading":
@@ -945,20 +1124,24 @@ def run_scenario(ctx, scn, cases, stats, samples):
         if scn["append"] and first_raw is not None:
             ap = scn["append"]
             base = tmp / ("o_threading_%d" % scn["ps"][0])
-            prev_raw = np.fromfile(base / "out.bin", dtype=np.uint8)
-            prev_rms = np.load(base / "_iblqc_ephysTimeRmsAP.rms.npy")
-            prev_t = np.load(base / "_iblqc_ephysTimeRmsAP.timestamps.npy")
             try:
-                ref2 = reference(binf, scn, nbatch=ap["nbatch"], t0=float(prev_t[-1]))
-            except Exception as e:
-                ctx.fail("exception: building blocks raised %s" % e, scn_public(scn), dict(tags_base, clause="exception"))
+                prev_raw = np.fromfile(base / "out.bin", dtype=np.uint8)
+                prev_rms = np.load(base / "_iblqc_ephysTimeRmsAP.rms.npy")
+                prev_t = np.load(base / "_iblqc_ephysTimeRmsAP.timestamps.npy")
+                float(prev_t[-1])
+            except Exception:
+                return             # the first run already failed its oracle
+            try:
+                ref2 = g_call(ctx, "reference", scn, binf, scn, nbatch=ap["nbatch"], t0=float(prev_t[-1]))
+            except RunFailure as e:
+                ctx.fail("exception: building blocks failed: %s" % e, scn_public(scn), dict(tags_base, clause="exception"))
                 return
-            obs = observe(binf, base, scn, ap["P"], "threading", append=True, nbatch=ap["nbatch"])
+            obs = g_observe(ctx, binf, base, scn, ap["P"], "threading", append=True, nbatch=ap["nbatch"])
             stats["runs"] += 1
             stats["runs_threading"] += 1
             stats["runs_append"] += 1
-            check_run(ctx, scn, obs, data, ref2, ref, tags_base, cases, stats, ap["nbatch"],
-                      prev_raw=prev_raw, prev_qc=(prev_rms, prev_t))
+            safe_check_run(ctx, scn, obs, data, ref2, ref, tags_base, cases, stats, ap["nbatch"],
+                           prev_raw=prev_raw, prev_qc=(prev_rms, prev_t))
     finally:
         shutil.rmtree(tmp, ignore_errors=True)
         stats["scenario_wall"].append([scn["ncv"], scn["ns"], scn["nbatch"], len(scn["ps"]) + len(scn["loky"]),
@@ -994,8 +1177,11 @@ def short_stream(ctx, stats):
                "nc_out": None, "dtype": "int16", "sat": False, "seed": 11 + ns, "append": None}
         tmp = common.tmpdir("C06_run_")
         try:
-            binf, data, _ = make_recording(tmp / "src", scn)
-            obs = observe(binf, tmp / "o", scn, p, "threading")
+            try:
+                binf, data, _ = g_call(ctx, "make_recording", scn, tmp / "src", scn)
+                obs = g_observe(ctx, binf, tmp / "o", scn, p, "threading")
+            except RunFailure as e:
+                obs = {"error": str(e)}
         finally:
             shutil.rmtree(tmp, ignore_errors=True)
         stats["short_stream"] += 1
@@ -1017,9 +1203,13 @@ def no_rms_run(ctx, stats):
            "nc_out": None, "dtype": "int16", "sat": True, "seed": 77, "append": None}
     tmp = common.tmpdir("C06_run_")
     try:
-        binf, data, _ = make_recording(tmp / "src", scn)
-        a = observe(binf, tmp / "a", scn, 2, "threading")
-        b = observe(binf, tmp / "b", dict(scn, compute_rms=False), 2, "threading")
+        try:
+            binf, data, _ = g_call(ctx, "make_recording", scn, tmp / "src", scn)
+        except RunFailure as e:
+            ctx.fail("exception: building blocks failed: %s" % e, scn, {"clause": "exception", "ncv": 8})
+            return
+        a = g_observe(ctx, binf, tmp / "a", scn, 2, "threading")
+        b = g_observe(ctx, binf, tmp / "b", dict(scn, compute_rms=False), 2, "threading")
     finally:
         shutil.rmtree(tmp, ignore_errors=True)
     stats["runs"] += 2
@@ -1064,15 +1254,15 @@ def no_rms_run(ctx, stats):
 def numpy_sync_sweep(ctx):
     """The sync word's arithmetic path (coq/C06/SyncCast.v) replayed with NumPy on all 65536 int16
     values, with the conversion factors the real Reader has for the sync channel."""
-    import spikeglx
     tmp = common.tmpdir("C06_run_")
+    scn = {"ns": 1100, "ncv": 8, "seed": 1, "nbatch": 4096}
     try:
-        scn = {"ns": 1100, "ncv": 8, "seed": 1, "nbatch": 4096}
-        binf, _, _ = make_recording(tmp / "src", scn)
-        sr = spikeglx.Reader(binf)
-        s2v = sr.sample2volts
+        binf, _, _ = g_call(ctx, "make_recording", scn, tmp / "src", scn)
+        s2v = np.asarray(g_call(ctx, "sync_factors", scn, binf))
         one = s2v[-1:]
-        sr.close()
+    except (RunFailure, Exception) as e:
+        ctx.disagree("sync cast: the reader's conversion factors could not be obtained (%s)" % e, {"kind": "sync_cast"})
+        return 0
     finally:
         shutil.rmtree(tmp, ignore_errors=True)
     r = np.arange(-32768, 32768).astype(np.int16)[:, np.newaxis]
@@ -1090,7 +1280,31 @@ def numpy_sync_sweep(ctx):
     return 65536
 
 
+def float_quotient_replay(ctx):
+    """C06_float_quotients_exact says what IEEE division gives; that Python's int / int followed by
+    int() / np.ceil is that operation is replayed here on operands up to 2^53 (boundary-heavy)."""
+    rng = ctx.rng
+    n = 0
+    for _ in range(20000 if ctx.thorough() else 4000):
+        b = rng.choice([rng.randrange(1, 1 << rng.randrange(1, 53)), 65536, 2304, rng.randrange(1, 64)])
+        q = rng.randrange(0, (1 << 53) // b)
+        a = min((1 << 53) - 1, max(1, q * b + rng.choice([-1, 0, 1, rng.randrange(0, b)])))
+        n += 1
+        if int(a / b) != a // b or int(np.ceil(a / b)) != -((-a) // b):
+            ctx.disagree("float quotient: int(a / b) or int(np.ceil(a / b)) is not the exact floor / ceiling",
+                         {"kind": "float_quotient", "a": a, "b": b})
+            break
+    return n
+
+
 def run(ctx):
+    try:
+        return run_inner(ctx)
+    finally:
+        RUN.stop()        # before interpreter exit: multiprocessing would otherwise wait for the child
+
+
+def run_inner(ctx):
     os.environ["PYTHONWARNINGS"] = "ignore"       # loky worker processes inherit it
     common.proof_obligations(ctx, whitelist=sorted(common.STDLIB_AXIOMS), coqchk_admit=["IBL.C06.SyncSweep"])
     scns = gen_scenarios(ctx)
@@ -1100,8 +1314,17 @@ def run(ctx):
     for s in scns:
         run_scenario(ctx, s, cases, stats, samples)
     short_stream(ctx, stats)
-    no_rms_run(ctx, stats)
-    stats["sync_sweep"] = numpy_sync_sweep(ctx)
+    try:
+        no_rms_run(ctx, stats)
+    except Exception as e:
+        ctx.fail("malformed: compute_rms=False run could not be examined (%s: %s)" % (type(e).__name__, str(e)[:200]),
+                 {"compute_rms": False}, {"clause": "malformed", "compute_rms": False})
+    stats["float_quotients"] = float_quotient_replay(ctx)
+    try:
+        stats["sync_sweep"] = numpy_sync_sweep(ctx)
+    except Exception as e:
+        ctx.disagree("sync cast: NumPy replay failed (%s: %s)" % (type(e).__name__, e), {"kind": "sync_cast"})
+        stats["sync_sweep"] = 0
     if ctx.thorough():
         # outside the property's quantifier, kept as a known finding (C06_more_workers_than_samples_refuted):
         # more workers than samples
@@ -1123,6 +1346,8 @@ def run(ctx):
     dist = {"scenarios": len(scns), "runs": stats["runs"], "runs_threading": stats["runs_threading"],
             "runs_loky_processes": stats["runs_loky"], "runs_append": stats["runs_append"],
             "short_recordings_malformed_stream": stats["short_stream"],
+            "float_quotient_pairs_replayed": stats.get("float_quotients", 0),
+            "sync_words_replayed_with_numpy": stats.get("sync_sweep", 0),
             "idle_workers_seen": stats["idle_workers"], "batches_processed_twice": stats["twice_processed_batches"],
             "workers_hist": {str(k): v for k, v in sorted(stats["P_hist"].items())},
             "ncv_hist": {str(k): sum(1 for s in scns if s["ncv"] == k) for k in sorted({s["ncv"] for s in scns})},
@@ -1141,11 +1366,18 @@ def run(ctx):
         samples=samples, evaluations=len(cases) + stats["runs_loky"] + stats["short_stream"],
         distinct_nontrivial=len(nontrivial),
         extra={"input_distribution": dist},
-        assumptions=["float64 quotient ceil/trunc equals exact integer ceil/floor for operands below 2^52",
+        assumptions=["recordings below 2^53 samples (C06_float_quotients_exact)",
                      "equal (batch, local row) descriptors mean equal bytes: the per-batch DSP is deterministic"])
 
 
 def replay(ctx, data):
+    try:
+        return replay_inner(ctx, data)
+    finally:
+        RUN.stop()
+
+
+def replay_inner(ctx, data):
     inp = data.get("input") or (data.get("correspondence_disagreements") or [{}])[0].get("input")
     if not inp:
         print(json.dumps(data, indent=1)[:3000])
